@@ -85,6 +85,10 @@ func MakeProfile(prop string, seed uint64, tier string) *Profile {
 			p.MirrorAll = true
 			p.Tag += "+mirrorall"
 		}
+		if !p.Script && r.Chance(1, 4) {
+			p.TwoW = true
+			p.Tag += "+2w"
+		}
 	case "C16":
 		p.Mirror = r.Chance(2, 3)
 		p.Subtree = true
@@ -721,7 +725,19 @@ func (w *World) shadowRequest(rseed uint64, plan []int) {
 	w.shadowUsed = true
 	primary := w.inc
 	w.inc = w.shadow
-	w.genAddCheckpoint(rq, r)
+	if w.prof.Prop == "C15" && w.prof.Mirror && (g == w.logs[0] || w.prof.MirrorAll) && rq.rec0N > 0 && r.Chance(3, 5) {
+		// an upload to the second process, served to completion within the step
+		// (its storage operations are applied as they are issued)
+		rq.kind = "addentries"
+		prevAuto := w.auto
+		w.auto = true
+		w.genAddEntries(rq, r)
+		synctest.Wait()
+		w.auto = prevAuto
+		w.sim.Probe("shadow.addentries")
+	} else {
+		w.genAddCheckpoint(rq, r)
+	}
 	w.inc = primary
 	w.sim.Probe("shadow.request")
 }
